@@ -219,7 +219,7 @@ impl<'i> Helpers<'i> for Node<'i> {
 
     fn as_usize(&self) -> Result<usize, String> {
         let text = self.as_str();
-        if let Some(num) = text.strip_prefix("0x") {
+        if let Some(num) = text.strip_prefix("0x").or_else(|| text.strip_prefix("0X")) {
             usize::from_str_radix(num, 16)
                 .map_err(|_| format!("cannot convert '{}' to usize", self.as_str()))
         } else {
